@@ -13,12 +13,19 @@ QUICK = dict(MaxX=2, Throughputs={0, 2, 3}, Volumes={0, 2, 3, 6}, Limits={0, 1, 
 THOROUGH = dict(MaxX=3, Throughputs={0, 2, 3}, Volumes={3, 6}, Limits={0, 1, 6}, Starts={0, 1}, Cancels={0, 2})
 
 
-def program(sc):
-    """every transfer is a task started at its date; the root cancels the ones with a cancel date"""
+def program(sc, mode='cancel'):
+    """every transfer is a task started at its date; the root cancels the ones with a cancel date (mode cancel), or
+    the transfer is the child of an until(delay) block that closes it forcefully at that date (mode close)"""
     root = [{'op': 'open', 'kind': 'scope', 'catch': True}]
     for i, x in enumerate(sc['xs']):
-        root.append({'op': 'do', 's': -1, 'vol': False, 'fin': 'none', 'd': x['s'],
-                     'prog': [{'op': 'transfer', 'i': i + 1, 'v': x['v'], 'l': x['l']}]})
+        xfer = [{'op': 'transfer', 'i': i + 1, 'v': x['v'], 'l': x['l']}]
+        if mode == 'close' and x['c'] > 0:
+            xfer = [{'op': 'open', 'kind': 'until_d', 'catch': True, 'd': x['c']},
+                    {'op': 'do', 's': -1, 'vol': False, 'fin': 'none', 'd': 0, 'prog': xfer}, {'op': 'leave'}]
+        root.append({'op': 'do', 's': -1, 'vol': False, 'fin': 'none', 'd': x['s'], 'prog': xfer})
+    if mode == 'close':
+        root.append({'op': 'leave'})
+        return [root]
     now = 0
     for date, k in sorted((x['s'] + x['c'], i + 2) for i, x in enumerate(sc['xs']) if x['c'] > 0):
         if date > now:
@@ -29,9 +36,10 @@ def program(sc):
     return [root]
 
 
-def _one(sc):
-    head = {'e': 'sc', 'a': 0, 'P': sc['P'], 'xs': sc['xs']}
-    log, outcome = puppet.run_program(program(sc), nroots=1, pipe=sc['P'], head=head)
+def _one(job):
+    sc, mode = job
+    head = {'e': 'sc', 'a': 0, 'P': sc['P'], 'xs': sc['xs'], 'mode': mode}
+    log, outcome = puppet.run_program(program(sc, mode), nroots=1, pipe=sc['P'], head=head)
     # the monitor needs the scenario, the transfer events and how the run ended
     return [e for e in log if e['e'] in ('sc', 'xb', 'xr', 'xu', 'xbad', 'fin')]
 
@@ -57,8 +65,10 @@ def run(check):
                            'wall_s': round(r.wall, 1)})
     import multiprocessing
     with multiprocessing.get_context('fork').Pool(16) as pool:
-        traces = pool.map(_one, scenarios, chunksize=200)
-    runs = [(sc, t, 1) for sc, t in zip(scenarios, traces)]
+        # a transfer is ended early by Task.cancel() or, in a second run of the scenario, by a forced close
+        jobs = [(sc, 'cancel') for sc in scenarios] + [(sc, 'close') for sc in scenarios if any(x['c'] > 0 for x in sc['xs'])]
+        traces = pool.map(_one, jobs, chunksize=200)
+    runs = [(dict(sc, mode=mode), t, 1) for (sc, mode), t in zip(jobs, traces)]
     check.programs += len(runs)
     check.extra['exhaustive'] = True
     usimrun.judge(check, OBS, runs)
@@ -69,7 +79,8 @@ def replay(path):
     import shutil
     with open(path) as fh:
         body = json.load(fh)
-    trace = _one(body['program'])
+    sc = body['program']
+    trace = _one(({k: v for k, v in sc.items() if k != 'mode'}, sc.get('mode', 'cancel')))
     check = core.Check('C13', 'quick', 0)
     rej = check.validate(OBS, [trace], label='replay')
     shutil.rmtree(check.tmp, ignore_errors=True)
